@@ -29,7 +29,7 @@ CLAIMED = {
          "whether the getters are truthful is C09/C11/C04's business", "5 C08"),
  "C16": ("SIM-A + H2", "deterministic pipeline simulation with stage snapshots (hook H2), relations between stages and the returned JSON",
          "History check over one solve call: LS result = last accepted step; final activities/start depots = LS result; cycles of final schedule and JSON = optimiser's cycles; end depots follow them; JSON = serialisation of the final schedule.",
-         "cycles compared as sets of cyclic sequences", "5 C16"),
+         "cycles compared as sets of cyclic sequences; the optimiser's cycles are read from the hook after the per-type loop, so a type for which the transition search is never called is not noticed (DESIGN 8, round 9)", "5 C16"),
  "C17": ("SIM-A stage 0", "seeded instance generation on tie-rich grids + REF network oracle over all ordered node pairs (weak fit: pure function of input, see DESIGN 5.2)",
          "Sampled differential check of the loaded Network against REF: node attributes, depots, overflow capacity, can_reach on all ordered pairs, successors/predecessors as sets. No schedule, clock or fault exists for this property; the simulator contributes seeded generation, owned hash seeds, replay and minimisation only.",
          "pure function of the input: this is reference-model testing inside the simulator's harness, said plainly in DESIGN 5.2", "5 C17 / 5.2"),
